@@ -756,9 +756,7 @@ def call_builtin_method(ex, recv, name, args, kw, node):
             return rebind(SeqV(recv.shape, recv.arr, I(0)))
         if name == "extend":
             other = to_seq(ex, args[0], node)
-            i = z3.Const(fresh_name("xi"), z3.IntSort())
-            arrs = [z3.Lambda([i], z3.If(i < recv.n, z3.Select(a, i), z3.Select(b, i - recv.n))) for a, b in zip(arrs_of(recv), arrs_of(other))]
-            return rebind(mk_seq(recv.shape, arrs, recv.n + other.n))
+            return rebind(ex.seq_binop(ast.Add(), recv, other))  # xs.extend(ys) == xs + ys, in place
         if name == "remove":
             # list.remove(x): deletes the FIRST item equal to x; ValueError if there is none
             (x,) = args
